@@ -96,3 +96,10 @@ func (trans *Transport) VerifPending() int {
 	}
 	return n
 }
+
+// VerifMakeHeader and VerifParseHeader expose the unexported datagram header functions to the
+// verification harness (read-only accessors, build tag "verif").
+func VerifMakeHeader(length int, index int) [8]byte { return makeHeader(length, index) }
+
+// VerifParseHeader: see VerifMakeHeader.
+func VerifParseHeader(header []byte) (length int, index int, ok bool) { return parseHeader(header) }
